@@ -178,6 +178,7 @@ func (l *Loaded) newInterp() *Interp {
 	done := map[*ssa.Package]bool{}
 	in.runInit(l.Main, done)
 	in.initMode = false
+	in.journal = nil
 	return in
 }
 
@@ -581,7 +582,7 @@ func RunJob(l *Loaded, job Job, nworkers int, seed int64) *JobResult {
 					if len(res.Knowns[outcome.Msg]) < 2 {
 						res.Knowns[outcome.Msg] = append(res.Knowns[outcome.Msg], w)
 					}
-				case "unsupported", "undecided":
+				case "unsupported", "undecided", "infeasible":
 					res.Msgs[kind+": "+outcome.Msg]++
 				case "done":
 					if haveW && len(res.Samples) < 24 {
